@@ -237,11 +237,26 @@ func run() int {
 
 	// ---- generate obligations (sequential: shares World.cur) with closure over used contracts ----
 	var results []*vc.FnResult
+	intFirst := map[string]bool{}
 	tGen0 := time.Now()
 	for i := 0; i < len(jobs); i++ {
 		j := jobs[i]
 		tg := time.Now()
-		r := w.VerifyFn(j.fn, j.ct, vc.VerifyOpts{SafetyOnly: j.safety && (j.ct == nil || !j.ct.Props[*prop])})
+		opts := vc.VerifyOpts{SafetyOnly: j.safety && (j.ct == nil || !j.ct.Props[*prop])}
+		var r *vc.FnResult
+		if j.ct != nil && j.ct.PreferInt {
+			opts.ForceInt = true
+			r = w.VerifyFn(j.fn, j.ct, opts)
+			if r.OutOfSubset != "" {
+				opts.ForceInt = false
+				r = nil
+			} else {
+				intFirst[vc.FnDisplay(j.fn)] = true
+			}
+		}
+		if r == nil {
+			r = w.VerifyFn(j.fn, j.ct, opts)
+		}
 		r.GenS = time.Since(tg).Seconds()
 		results = append(results, r)
 		if *verbose {
@@ -415,34 +430,37 @@ func run() int {
 				undecidedFns[g.Fn] = true
 			}
 		}
+		type retry struct {
+			name   string
+			r2     *vc.FnResult
+			byName map[string][]*vc.Obligation
+		}
+		var retries []*retry
+		var wg2 sync.WaitGroup
 		for i := 0; i < len(jobs) && len(undecidedFns) > 0; i++ {
 			j := jobs[i]
 			name := vc.FnDisplay(j.fn)
 			if !undecidedFns[name] || (j.ct != nil && j.ct.Mode == "int") {
 				continue
 			}
-			r2 := w.VerifyFn(j.fn, j.ct, vc.VerifyOpts{ForceInt: true, SafetyOnly: j.safety && (j.ct == nil || !j.ct.Props[*prop])})
+			r2 := w.VerifyFn(j.fn, j.ct, vc.VerifyOpts{ForceInt: !intFirst[name], SafetyOnly: j.safety && (j.ct == nil || !j.ct.Props[*prop])})
 			if r2.OutOfSubset != "" {
 				if *verbose {
-					fmt.Fprintf(os.Stderr, "int-mode retry of %s: out of subset: %s\n", name, r2.OutOfSubset)
+					fmt.Fprintf(os.Stderr, "other-mode retry of %s: out of subset: %s\n", name, r2.OutOfSubset)
 				}
 				continue
 			}
 			intRetried++
-			byName := map[string][]*vc.Obligation{}
+			rt := &retry{name: name, r2: r2, byName: map[string][]*vc.Obligation{}}
+			retries = append(retries, rt)
 			for _, o := range r2.Obls {
-				byName[o.Name] = append(byName[o.Name], o)
+				rt.byName[o.Name] = append(rt.byName[o.Name], o)
 			}
-			var wg2 sync.WaitGroup
 			for gname, g := range groups {
 				if g.Fn != name || g.Kind == "cover" || g.Status != "undecided" {
 					continue
 				}
-				os2 := byName[gname]
-				if len(os2) == 0 {
-					continue
-				}
-				for _, o := range os2 {
+				for _, o := range rt.byName[gname] {
 					if o.Trivial {
 						continue
 					}
@@ -450,9 +468,13 @@ func run() int {
 					asserts := append([]*vc.Term{}, o.Assume...)
 					asserts = append(asserts, r2.Ctx.Not(o.Goal))
 					script := r2.Ctx.Script(w.Prelude, asserts, nil)
+					if *dump != "" {
+						os.MkdirAll(*dump, 0o755)
+						os.WriteFile(filepath.Join(*dump, safeName(o.Name)+fmt.Sprintf("_int_p%d.smt2", o.Path)), []byte(script), 0o644)
+					}
 					wg2.Add(1)
-					par <- struct{}{}
 					go func() {
+						par <- struct{}{}
 						defer wg2.Done()
 						defer func() { <-par }()
 						res := w.PF.Solve(script, timeout)
@@ -460,12 +482,14 @@ func run() int {
 					}()
 				}
 			}
-			wg2.Wait()
+		}
+		wg2.Wait()
+		for _, rt := range retries {
 			for gname, g := range groups {
-				if g.Fn != name || g.Kind == "cover" || g.Status != "undecided" {
+				if g.Fn != rt.name || g.Kind == "cover" || g.Status != "undecided" {
 					continue
 				}
-				os2 := byName[gname]
+				os2 := rt.byName[gname]
 				if len(os2) == 0 {
 					continue
 				}
@@ -481,18 +505,18 @@ func run() int {
 				}
 				if all {
 					g.Status = "discharged"
-					g.Solver = "int-mode:" + os2[0].Solver
+					g.Solver = "other-mode:" + os2[0].Solver
 					intDischarged++
 				} else if bad != nil {
 					g.Status = "failed"
 					g.Worst = bad
-					ctxOf[bad] = r2
+					ctxOf[bad] = rt.r2
 				}
 			}
 		}
 	}
 	if *verbose && intRetried > 0 {
-		fmt.Fprintf(os.Stderr, "int-mode retry: %d functions, %d obligations discharged\n", intRetried, intDischarged)
+		fmt.Fprintf(os.Stderr, "other-mode retry (int<->bv): %d functions, %d obligations discharged\n", intRetried, intDischarged)
 	}
 
 	// ---- known findings / not-claimed ----
@@ -515,6 +539,7 @@ func run() int {
 				coverOK++
 			} else {
 				coverBad++
+				fmt.Fprintf(os.Stderr, "  note: cover not decided satisfiable: %s (%s)\n", name, g.Status)
 			}
 			continue
 		}
